@@ -67,8 +67,8 @@ COMPS.append([dict(el='D', q=1, n=4e19, t=900., v=(1e4, 0, 0), gn=(0.1, 0.05, 0)
 EXTRA_SPECIES = [dict(el='Ne', q=10, n=2e17, t=700., v=(0, 0, 0), gn=(0, 0.1, 0), gt=(0, 0, 0)),
                  dict(el='C', q=5, n=4e17, t=650., v=(0, 1e4, 0), gn=(0, 0, 0), gt=(0, 0, 0))]
 PMODELS = [BASE['plasma']['models'], [('exc', ('C', 5, (8, 7)))], [('rec', ('C', 5, (8, 7))), ('brems',)],
-           [('tcx', ('C', 5, (8, 7))), ('trp', 'C', 5)], [('brems',)]]
-BMODELS = [BASE['beam']['models'], [('bcx', ('C', 5, (8, 7)))], [('bem', ('D', 0, (3, 2)))]]
+           [('tcx', ('C', 5, (8, 7))), ('trp', 'C', 5)], [('brems',)], []]
+BMODELS = [BASE['beam']['models'], [('bcx', ('C', 5, (8, 7)))], [('bem', ('D', 0, (3, 2)))], []]
 GEOMS = [('box', 1.0, 1.0, 1.0), ('sphere', 0.9), ('cyl', 0.8, 1.6), ('box', 0.6, 1.2, 0.9)]
 
 
@@ -226,6 +226,14 @@ def mutators(S):
         lst.append(S.beam_model(('bcx', ('C', 5, (8, 7)))))
         del lst[0]
     reg('beam.models(then-mutate-caller-list)', lambda r, c: _other(r, BMODELS, c[B]['models']), _alias_bmodels_act, setc(B, 'models'))
+
+    # clear() of the three managers named by the property
+    reg('plasma.models.clear', lambda r, c: 0 if c[P]['models'] else None, lambda L, v: L.plasma.models.clear(), lambda cfg, v: cfg[P].__setitem__('models', []))
+    reg('beam.models.clear', lambda r, c: 0 if c[B]['models'] else None, lambda L, v: L.beam.models.clear(), lambda cfg, v: cfg[B].__setitem__('models', []))
+    reg('plasma.composition.clear', lambda r, c: 0 if c[P]['composition'] else None, lambda L, v: L.plasma.composition.clear(),
+        lambda cfg, v: cfg[P].__setitem__('composition', []))
+    reg('plasma2.composition.clear', lambda r, c: 0 if c[Q]['composition'] else None, lambda L, v: L.plasma2.composition.clear(),
+        lambda cfg, v: cfg[Q].__setitem__('composition', []))
 
     # other legal container types for the same assignments
     reg('plasma.composition(tuple)', lambda r, c: _other(r, COMPS, c[P]['composition']),
@@ -468,7 +476,7 @@ PARAM_NODE = {
     'plasma.composition.set': ['Composition.set'], 'plasma.atomic_data': ['Plasma.atomic_data.set'],
     'plasma.geometry': ['Plasma.geometry.set'], 'plasma.geometry_transform': ['Plasma.geometry_transform.set'],
     'plasma.integrator': ['Plasma.integrator.set'], 'plasma.models': ['Plasma.models.set'],
-    'plasma.models.add': ['plasma.ModelManager.add'], 'plasma.models.set': ['plasma.ModelManager.set'],
+    'plasma.models.add': ['plasma.ModelManager.add'], 'plasma.models.clear': ['plasma.ModelManager.clear'], 'beam.models.clear': ['beam.ModelManager.clear'], 'plasma.composition.clear': ['Composition.clear'], 'plasma.models.set': ['plasma.ModelManager.set'],
     'plasma.transform': ['scenegraph:Plasma'], 'plasma.parent': ['scenegraph:Plasma'],
     'ancestor.transform': ['scenegraph:Plasma', 'scenegraph:Beam', 'scenegraph:Laser'],
     'beam.energy': ['Beam.energy.set'], 'beam.power': ['Beam.power.set'], 'beam.temperature': ['Beam.temperature.set'],
@@ -490,7 +498,7 @@ ACCESSOR_CACHE = {'exc': 'cache:Models(ExcitationLine)', 'rec': 'cache:Models(Re
                   'lrp': 'cache:Models(TotalRadiatedPower)', 'gaunt': 'cache:Models(Bremsstrahlung)', 'bcx': 'cache:Models(BeamCXLine)',
                   'bem': 'cache:Models(BeamEmissionLine)', 'stop': 'cache:Attenuation'}
 # mutators after which some model kinds are no longer attached (so their caches cannot be seen to refill)
-MODEL_SET_CHANGERS = ('plasma.models(generator)', 'beam.models(tuple)', 'plasma.models(then-mutate-caller-list)', 'beam.models(then-mutate-caller-list)', 'plasma.models', 'plasma.models.set', 'plasma.models.add', 'beam.models', 'beam.models.add', 'laser.models')
+MODEL_SET_CHANGERS = ('plasma.models.clear', 'beam.models.clear', 'plasma.models(generator)', 'beam.models(tuple)', 'plasma.models(then-mutate-caller-list)', 'beam.models(then-mutate-caller-list)', 'plasma.models', 'plasma.models.set', 'plasma.models.add', 'beam.models', 'beam.models.add', 'laser.models')
 
 
 def _idents(L):
